@@ -300,6 +300,23 @@ impl Cluster {
         self.wait_quiescent_nudged_opt(secs, via, false)
     }
 
+    /// A formed cluster of `n` nodes: a formation that does not complete (see `form`) is thrown away and started
+    /// over on fresh directories and ports, up to three times - all before any generated operation.
+    pub fn new_formed(work: &Path, tag: &str, n: usize, salt: u64, env: BTreeMap<String, String>) -> Result<Cluster, String> {
+        let mut last = String::new();
+        for a in 0..3u64 {
+            let mut c = Cluster::new(work, &format!("{}-f{}", tag, a), n, salt.wrapping_add(a * 7919), env.clone())?;
+            match c.form() {
+                Ok(()) => return Ok(c),
+                Err(e) => {
+                    last = e;
+                    c.cleanup();
+                }
+            }
+        }
+        Err(last)
+    }
+
     /// one sentinel write through node `via` to a fresh key
     pub fn nudge(&mut self, via: usize) {
         let id = format!("zz-nudge-{}", self.nudges.len() + 1);
@@ -361,6 +378,12 @@ impl Cluster {
                     joined = true;
                     break;
                 }
+                // the leader lists the node but has never reached it (no leader known to the joiner, empty log) after
+                // 25 s: this formation is wedged (DESIGN.md 8.4, observations) - give up early, the caller starts over
+                let never_contacted = self.metrics(i).map(|m| m["current_leader"].is_null() && m["last_log_index"].as_u64() == Some(0)).unwrap_or(false);
+                if member && never_contacted && t0.elapsed() > Duration::from_secs(25) {
+                    break;
+                }
                 // join_node ignores the result of raft.change_membership (it fails e.g. while the previous
                 // change is still in flight) but records the node as a member in the index file anyway; the
                 // documented remedy is the management API, used here only while the cluster is being formed
@@ -377,7 +400,8 @@ impl Cluster {
                 std::thread::sleep(Duration::from_millis(400));
             }
             if !joined {
-                return Err(format!("node {} did not become a voting member (management API used: {}); log: {}", i + 1, helped, self.log_tail(i)));
+                let ms: Vec<String> = (0..=i).map(|k| self.metrics(k).map(|m| format!("n{}:{}/L{}/t{}/log{}/app{}/members{}", k + 1, m["state"], m["current_leader"], m["current_term"], m["last_log_index"], m["last_applied"], m["membership_config"]["members"])).unwrap_or_else(|| format!("n{}:no-answer", k + 1))).collect();
+                return Err(format!("node {} did not become a voting member (management API used: {}); metrics {:?}; log: {}", i + 1, helped, ms, self.log_tail(i).chars().rev().take(500).collect::<String>().chars().rev().collect::<String>()));
             }
         }
         self.wait_quiescent_nudged(45, 0).map(|_| ())
